@@ -223,7 +223,7 @@ def bfs(sx, graph, rao, rep, interleave=False):
 
 def jobs(tier):
     quick = tier == 'quick'
-    o = dict(timeout_ms=15000, budget_s=(300 if tier == 'quick' else 600), max_paths=20000)
+    o = dict(timeout_ms=15000, budget_s=(120 if tier == 'quick' else 600), max_paths=20000)
     G = graphs(tier)
     reps = ['next_state', 'det', 'dict1', 'uniform1']
     for tie in ['lifo', 'fifo', 'random']:
